@@ -42,6 +42,13 @@ def trigger_library():
         "header": ("## H2 first\n", {}, ("myst", "header")),
         "role_in_heading": ("# T {nosuchrole}`x` end\n\ntext\n", {}, ("myst", "role_unknown")),
         "strike_in_heading": ("## S ~~gone~~\n\ntext\n", {"myst_enable_extensions": ["strikethrough"]}, ("myst", "strikethrough")),
+        # the warning node sits inside nested inline markup of the title
+        "strike_nested_heading": ("# T *~~a~~* b\n\ntext\n", {"myst_enable_extensions": ["strikethrough"]}, ("myst", "strikethrough")),
+        "role_nested_heading": ("# T **{nosuchrole}`x`** end\n\ntext\n", {}, ("myst", "role_unknown")),
+        # a suppress list written in the document's front matter: the global list keeps deciding
+        "fm_suppress_list": ("---\nmyst:\n  suppress_warnings: ['myst.strikethrough']\n---\n\n## H2 first\n\n~~x~~ text\n",
+                             {"myst_enable_extensions": ["strikethrough"]}, ("myst", "header")),
+        "fm_suppress_empty": ("---\nmyst:\n  suppress_warnings: []\n---\n\n# A\n\n### C\n", {}, ("myst", "header")),
         "header_text": ("## H2 first\n\ntext below\n", {}, ("myst", "header")),
         "header_jump": ("# A\n\n### B\n\ntext\n", {}, ("myst", "header")),
         "header_jump2": ("# A\n\n## B\n\n#### C\n\n## D\n", {}, ("myst", "header")),
